@@ -1,0 +1,21 @@
+//! Deserialization helpers.
+
+use cosmian_crypto_core::bytes_ser_de::Deserializer;
+
+use crate::Error;
+
+/// Reads a length-prefixed vector of bytes.
+///
+/// The announced length cannot be trusted: it is checked against the number of
+/// bytes left to read *before* allocating the vector.
+pub(crate) fn read_vec(de: &mut Deserializer) -> Result<Vec<u8>, Error> {
+    let mut header = Deserializer::new(de.value());
+    let length = header.read_leb128_u64()?;
+    let available = header.value().len();
+    if length > available as u64 {
+        return Err(Error::ConversionFailed(format!(
+            "cannot read a vector of {length} bytes: only {available} bytes left"
+        )));
+    }
+    de.read_vec().map_err(Error::from)
+}
